@@ -51,10 +51,11 @@ public:
 	}
 	SmartObject& operator=(const SmartObject& n)
 	{
+		SmartObject_* p = n._p; // n can be *this or live inside the object being released
+		if (p)
+			++p->rc;
 		unref();
-		_p = n._p;
-		if (_p)
-			++_p->rc;
+		_p = p;
 		return *this;
 	}
 	~SmartObject()
